@@ -154,6 +154,16 @@ func (k *keeper) check(e Ev) {
 	e["held_what"], e["held_then"], e["held_now"] = k.items[0].what, short(k.items[0].then), short(k.items[0].then)
 }
 
+// WithRandomSizes: the listed sizes plus n seeded random ones in lo..hi (a threshold may sit anywhere; different seeds try different sizes)
+func (g *Gen) WithRandomSizes(base []int, n, lo, hi int) []int {
+	r := g.Rand()
+	out := append([]int{}, base...)
+	for i := 0; i < n; i++ {
+		out = append(out, lo+r.Intn(hi-lo+1))
+	}
+	return out
+}
+
 // Pick returns quick or thorough value.
 func (g *Gen) Pick(quick, thorough int) int {
 	if g.Thorough() {
